@@ -252,9 +252,9 @@ class Parser:
             if self.at("."):
                 self.next()
                 m = self.ident()
+                if self.at("<") and m in ("Load", "Load2", "Load3", "Load4", "Store", "Store2", "Store3", "Store4"):
+                    raise OutOfFragment("templated buffer method " + m)
                 if self.at("("):
-                    if self.at("<"):
-                        raise OutOfFragment("templated method")
                     e = ["method", e, m, self.args()]
                 else:
                     e = ["member", e, m]
